@@ -283,7 +283,7 @@ Fixpoint pol_delete (order : list finfo) (remain : Z) (s : st) : st * Z * bool :
 Inductive out :=
 | ORes (r : res)
 | OPass (legal : bool) (err : bool)
-| ODel (deleted : bool) (r : res).
+| ODel (deleted failed : bool).
 
 (* cleanup.go:204-261 customPolicyBasedCleanup; total = None when the disk usage call failed *)
 Definition policy_pass (thr : Z) (total : option Z) (scan order : list N) (s : st) : st * out :=
@@ -319,22 +319,21 @@ Definition cleanup (c : cfg) (pol : bool) (u : option usage) (scan order : list 
    in the blob's hash-ring locations; wb = every pending write-back task of the blob executed
    successfully (SyncExec, :1042) *)
 Definition force_delete (n : N) (ttl : Z) (owns wb : bool) (s : st) : st * out :=
+  let del := fun s0 : st =>
+    let '(s4, r) := delete_file n s0 in                                      (* :1052 *)
+    (s4, match r with ROk => ODel true false | _ => ODel false true end) in
   let '(s1, ok) := peek n s in                                               (* :1020 GetCacheFileStat *)
   match (if ok then aget n (dk s1) else None) with
-  | None => (s1, ODel false RNotExist)
+  | None => (s1, ODel false true)
   | Some f =>
       if (ttl <? now s1 - f_mtime f) || negb owns then                       (* :1024-1026 *)
         let '(s2, _) := peek n s1 in                                         (* :1030 GetCacheFileMetadata *)
         if is_persisted f then
           if wb then
-            let '(s3, _) := with_file n (fun f => set_persist f None) s2 in  (* :1048 *)
-            let '(s4, r) := delete_file n s3 in                              (* :1052 *)
-            (s4, ODel (match r with ROk => true | _ => false end) r)
-          else (s2, ODel false RErr)                                         (* :1043-1045 *)
-        else
-          let '(s4, r) := delete_file n s2 in
-          (s4, ODel (match r with ROk => true | _ => false end) r)
-      else (s1, ODel false ROk)
+            del (fst (with_file n (fun f => set_persist f None) s2))         (* :1048 *)
+          else (s2, ODel false true)                                         (* :1043-1045 *)
+        else del s2
+      else (s1, ODel false false)
   end.
 
 (* ---- histories *)
